@@ -151,6 +151,9 @@ class Fold(ast.NodeTransformer):
                 v = (a[1] is b[1]) if (a[1] is None or b[1] is None or isinstance(a[1], bool) or isinstance(b[1], bool)) else None
             elif isinstance(op, ast.IsNot):
                 v = (a[1] is not b[1]) if (a[1] is None or b[1] is None or isinstance(a[1], bool) or isinstance(b[1], bool)) else None
+            elif isinstance(op, (ast.Lt, ast.LtE, ast.Gt, ast.GtE)) and isinstance(a[1], (int, float)) and isinstance(b[1], (int, float)) \
+                    and not isinstance(a[1], bool) and not isinstance(b[1], bool):
+                v = {ast.Lt: a[1] < b[1], ast.LtE: a[1] <= b[1], ast.Gt: a[1] > b[1], ast.GtE: a[1] >= b[1]}[type(op)]
             elif isinstance(op, ast.In) and isinstance(b[1], (tuple, str)):
                 v = a[1] in b[1]
             elif isinstance(op, ast.NotIn) and isinstance(b[1], (tuple, str)):
@@ -537,8 +540,12 @@ def inline_closures(fnode):
 
 
 def _cheap(e):
+    if e is None:
+        return True
     if isinstance(e, (ast.Name, ast.Constant)):
         return True
+    if isinstance(e, ast.Slice):
+        return _cheap(e.lower) and _cheap(e.upper) and _cheap(e.step)
     if isinstance(e, ast.Attribute):
         return _cheap(e.value)
     if isinstance(e, ast.Subscript):
@@ -601,6 +608,34 @@ def _ends_continue(body):
     return isinstance(last, ast.If) and bool(last.orelse) and _ends_continue(last.body) and _ends_continue(last.orelse)
 
 
+def _display_local(f, name):
+    """the tuple / list display a local is bound to (exactly one binding, never mutated), or None"""
+    cnt = 0
+    val = None
+    for n in walk_own(f.node):
+        if isinstance(n, ast.Assign):
+            for t in n.targets:
+                for x in ast.walk(t):
+                    if isinstance(x, ast.Name) and x.id == name and isinstance(x.ctx, ast.Store):
+                        cnt += 1
+                        val = n.value if (len(n.targets) == 1 and isinstance(n.targets[0], ast.Name)) else None
+        elif isinstance(n, (ast.AugAssign, ast.For, ast.AnnAssign)):
+            for x in ast.walk(n.target):
+                if isinstance(x, ast.Name) and x.id == name:
+                    cnt += 1
+        elif isinstance(n, ast.Call) and isinstance(n.func, ast.Attribute) and isinstance(n.func.value, ast.Name) and n.func.value.id == name \
+                and n.func.attr in ("append", "extend", "insert", "pop", "remove", "sort", "reverse", "clear"):
+            return None
+        elif isinstance(n, ast.Subscript) and isinstance(n.ctx, (ast.Store, ast.Del)) and isinstance(n.value, ast.Name) and n.value.id == name:
+            return None
+    a = f.node.args
+    if name in {p.arg for p in a.posonlyargs + a.args + a.kwonlyargs}:
+        return None
+    if cnt == 1 and isinstance(val, (ast.Tuple, ast.List)) and not any(isinstance(x, ast.Starred) for x in val.elts):
+        return val
+    return None
+
+
 def _rows(repo, f, it):
     """rows of a constant iterable expression as lists of per-position value expressions, or None.
     zip(CONST, X) gives (c_i, X[i]); enumerate(CONST) gives (i, c_i)."""
@@ -612,10 +647,14 @@ def _rows(repo, f, it):
                 isinstance(r, (ast.Tuple, ast.List)) and r.elts and all(_const(x) or _cheap(x) for x in r.elts) and any(_const(x) for x in r.elts) for r in e.elts):
             return list(e.elts)
         # a display of plain names / paths: for idx in (idx1, idx2, idx3)
-        if isinstance(e, (ast.Tuple, ast.List)) and 1 < len(e.elts) <= 8 and all(isinstance(x, (ast.Name, ast.Attribute)) and _cheap(x) for x in e.elts):
+        if isinstance(e, (ast.Tuple, ast.List)) and 1 <= len(e.elts) <= 8 and all(isinstance(x, (ast.Name, ast.Attribute, ast.Subscript)) and _cheap(x) for x in e.elts):
             return list(e.elts)
         return _table(repo, f, e) if isinstance(e, (ast.Name, ast.Attribute)) else None
     t = table(it)
+    if t is None and isinstance(it, ast.Name):
+        d = _display_local(f, it.id)
+        if d is not None:
+            t = table(d)
     if t is not None:
         return [[r] for r in t]
     if isinstance(it, ast.Call) and isinstance(it.func, ast.Name) and it.func.id == "range" and not it.keywords and 1 <= len(it.args) <= 2 \
@@ -663,6 +702,22 @@ def _bind_target(tgt, val):
     return None
 
 
+def _pure_local_body(body):
+    """assignments to plain local names whose values are arithmetic / numpy calls only"""
+    for st in body:
+        if not (isinstance(st, (ast.Assign, ast.AugAssign))):
+            return False
+        tg = st.targets if isinstance(st, ast.Assign) else [st.target]
+        if not all(isinstance(t, ast.Name) for t in tg):
+            return False
+        for x in ast.walk(st.value):
+            if isinstance(x, ast.Call) and not U(x.func).startswith(("np.", "numpy.")):
+                return False
+            if isinstance(x, (ast.Yield, ast.YieldFrom, ast.Await, ast.NamedExpr)):
+                return False
+    return True
+
+
 def unroll_loops(repo, f, counter):
     changed = [False]
 
@@ -678,6 +733,26 @@ def unroll_loops(repo, f, counter):
                     h.body = rewrite(h.body)
             if isinstance(st, ast.For) and not st.orelse and not any(isinstance(x, (ast.Break, ast.Return)) for b in st.body for x in ast.walk(b)):
                 rows = _rows(repo, f, st.iter)
+                if rows is None:
+                    # a display of arbitrary expressions driving a body of pure local arithmetic (an accumulation):
+                    # evaluate the elements into temporaries first (display order), then run the copies of the body
+                    disp = st.iter if isinstance(st.iter, (ast.List, ast.Tuple)) else (_display_local(f, st.iter.id) if isinstance(st.iter, ast.Name) else None)
+                    if disp is not None and len(disp.elts) <= 8 and not any(isinstance(x, ast.Starred) for x in disp.elts) and isinstance(st.target, ast.Name) \
+                            and _pure_local_body(st.body) and st.target.id not in _stored(st.body):
+                        k = counter[0]
+                        counter[0] += 1
+                        temps = []
+                        for i, el in enumerate(disp.elts):
+                            tnm = f"{st.target.id}__u{k}_{i}"
+                            temps.append(tnm)
+                            out.append(ast.Assign(targets=[ast.Name(id=tnm, ctx=ast.Store())], value=copy.deepcopy(el), lineno=getattr(st, "lineno", 0), col_offset=0))
+                        for tnm in temps:
+                            for b in st.body:
+                                nb = _Sub({st.target.id: ast.Name(id=tnm, ctx=ast.Load())}, {}).visit(copy.deepcopy(b))
+                                ast.fix_missing_locations(nb)
+                                out.append(nb)
+                        changed[0] = True
+                        continue
                 if rows is not None:
                     binds = [_bind_target(st.target, r[0]) for r in rows]
                     # `continue` is supported as the last statement of an if-arm only when the arm is the whole tail: keep simple
@@ -739,6 +814,31 @@ def unroll_loops(repo, f, counter):
             return n if it is None else ast.copy_location(ast.List(elts=it, ctx=ast.Load()), n)
 
         def visit_Assign(self, n):
+            # head, *rest = [x, y, z]  ->  head = x; rest = [y, z]   (as a tuple assignment that the simplifier splits)
+            if len(n.targets) == 1 and isinstance(n.targets[0], (ast.Tuple, ast.List)) and isinstance(n.value, (ast.Tuple, ast.List)) \
+                    and sum(isinstance(t, ast.Starred) for t in n.targets[0].elts) == 1 and not any(isinstance(x, ast.Starred) for x in n.value.elts) \
+                    and all(isinstance(t.value if isinstance(t, ast.Starred) else t, ast.Name) for t in n.targets[0].elts):
+                tg = n.targets[0].elts
+                k = next(i for i, t in enumerate(tg) if isinstance(t, ast.Starred))
+                after = len(tg) - k - 1
+                vals = n.value.elts
+                if len(vals) >= len(tg) - 1:
+                    new_t, new_v = [], []
+                    for i, t in enumerate(tg):
+                        if i < k:
+                            new_t.append(t)
+                            new_v.append(vals[i])
+                        elif i == k:
+                            new_t.append(ast.Name(id=t.value.id, ctx=ast.Store()))
+                            new_v.append(ast.List(elts=list(vals[k:len(vals) - after]), ctx=ast.Load()))
+                        else:
+                            new_t.append(t)
+                            new_v.append(vals[len(vals) - (len(tg) - i)])
+                    n.targets = [ast.Tuple(elts=new_t, ctx=ast.Store())]
+                    n.value = ast.Tuple(elts=new_v, ctx=ast.Load())
+                    changed[0] = True
+                    self.generic_visit(n)
+                    return n
             # a, b, c = (E(x) for x in CONST)   -> a, b, c = (E(x0), E(x1), E(x2))
             if len(n.targets) == 1 and isinstance(n.targets[0], (ast.Tuple, ast.List)) and isinstance(n.value, ast.GeneratorExp):
                 g = n.value
@@ -1119,6 +1219,25 @@ def _replace_sets(iff, v, exc):
 
 
 # --------------------------------------------------------------------------------------------------- driver
+def drop_unused_closures(fnode):
+    """nested function definitions that nothing refers to any more (all their calls were replaced by their value)"""
+    used = {x.id for x in ast.walk(fnode) if isinstance(x, ast.Name)}
+
+    def strip(stmts):
+        out = []
+        for st in stmts:
+            if isinstance(st, ast.FunctionDef) and st.name not in used and not st.decorator_list:
+                continue
+            for fld in ("body", "orelse", "finalbody"):
+                sub = getattr(st, fld, None)
+                if isinstance(sub, list) and sub and isinstance(sub[0], ast.stmt) and not isinstance(st, (ast.FunctionDef, ast.ClassDef)):
+                    new = strip(sub)
+                    setattr(st, fld, new or ([ast.Pass()] if fld == "body" else []))
+            out.append(st)
+        return out
+    fnode.body = strip(fnode.body)
+
+
 def has_constant_structure(repo, f):
     """cheap trigger: the function contains a closure, a lambda bound to a name, a loop / comprehension over a constant
     iterable, a `**name` call argument or a constant-key dict local"""
@@ -1128,6 +1247,8 @@ def has_constant_structure(repo, f):
         if isinstance(n, ast.Assign) and isinstance(n.value, ast.Lambda):
             return True
         if isinstance(n, (ast.For, ast.comprehension)) and _rows(repo, f, n.iter) is not None:
+            return True
+        if isinstance(n, ast.For) and isinstance(n.iter, (ast.List, ast.Tuple)):
             return True
         if isinstance(n, ast.keyword) and n.arg is None and isinstance(n.value, ast.Name):
             return True
@@ -1146,7 +1267,7 @@ def has_constant_structure(repo, f):
     return False
 
 
-def partial_evaluate(repo, max_rounds=4):
+def partial_evaluate(repo, max_rounds=8):
     from .inliner import simplify
     from .normalize import simplify_lists
     report = {}
@@ -1202,7 +1323,9 @@ def partial_evaluate(repo, max_rounds=4):
             ast.fix_missing_locations(f.node)
             if not ch:
                 break
+            simplify_lists(f.node, simplify)        # split tuple assignments / merge re-definitions before the next round
         if steps:
+            drop_unused_closures(f.node)
             simplify_lists(f.node, simplify)
             fold_append_sequences(f.node)
             f.node = _Getattr().visit(f.node)
